@@ -654,6 +654,9 @@ def make_item(seed, tmpl_idx, depth, mode=None, variant=None):
                                                  "variant": variant}}
 
 
+THOROUGH_BUDGET_S = 900
+
+
 def correspond(ctx):
     check_filters_direct(ctx)
     items = []
@@ -677,6 +680,7 @@ def correspond(ctx):
     # directed: symbolic mapping storage, write m[k1] then read the never-written m[k2] (literal / calldata key, both orders)
     for v in range(6):
         items.append(make_item(4000 + v, TEMPLATES.index(s_symmap), 2 if v < 4 else (1 + v % 2 * 2), variant=v))
+    n_directed = len(items)
     n = ctx.scale(30, 390)
     for i in range(n):
         t = i % len(TEMPLATES)
@@ -684,8 +688,14 @@ def correspond(ctx):
         if depth == 3 and TEMPLATES[t] not in (s_toggle, s_boom, s_owned, s_setter):
             depth = 2
         items.append(make_item(ctx.rng.randrange(1 << 40), t, depth, variant=i // len(TEMPLATES) + (i % 3) * 4))
+    import time
+
     chunk = 24
     for off in range(0, len(items), chunk):
+        # directed / corpus items are at the front; random ones stop once the thorough wall-clock budget is used
+        if off >= n_directed and ctx.tier != "quick" and time.time() - ctx.t0 > THOROUGH_BUDGET_S:
+            ctx.count("budget-stop")
+            break
         check_scenarios(ctx, items[off:off + chunk])
     ctx.sample({"scenario": items[-1]["scn"].name, "filters": str(items[-1]["scn"].filters), "depth": items[-1]["depth"],
                 "invariants": [i.name for i in items[-1]["scn"].invs]})
